@@ -31,7 +31,7 @@ RULE = ("seeded schedules; distinct = canonical schedule JSON; non-trivial = som
         "same group was in flight")
 REQUIRED_BUCKETS = ["arrival-while-in-flight", "coalesced(overwritten-pending)", "arrival-at-completion-instant",
                     "in-flight-raised", "multi-group", "duration-0", "pending-started-at-exit-instant",
-                    "independent-group-started-while-other-busy"]
+                    "independent-group-started-while-other-busy", "equal-requests-repeated"]
 REQUIRED_COUNTERS = ["requests_sent", "distributions_entered", "schedules_run"]
 ASSUMPTIONS = ["probe ComponentManager; virtual time"]
 
@@ -52,6 +52,11 @@ def gen(rng: Any, tier: str, i: int) -> Any:
     for k in range(n):
         t += rng.choice([0, 0, 0.5, 1.0, 1.0, 2.0, 3.5])
         reqs.append([t, rng.randrange(ng), rng.choice([0, 0, 0.5, 1.0, 1.0, 2.0, 5.0]), rng.random() < 0.25])
+    if rng.random() < 0.4:
+        # requests that are *equal* to earlier ones (same power, same components): 5th field = shared power class
+        for r in reqs:
+            if rng.random() < 0.6:
+                r.append(rng.choice([0, 0, 1]))
     return {"n_groups": ng, "requests": reqs}
 
 
@@ -65,6 +70,9 @@ async def _drive(case: dict[str, Any], log: list[Any]) -> None:
 
     loop = asyncio.get_event_loop()
     script = {float(i + 1): (r[2], r[3]) for i, r in enumerate(case["requests"])}
+    script[-1.0] = (0, False)
+    ident: dict[int, float] = {}
+    objs: dict[float, Any] = {}
 
     class Probe:
         def __init__(self, *a: Any, **k: Any) -> None:
@@ -81,7 +89,9 @@ async def _drive(case: dict[str, Any], log: list[Any]) -> None:
 
         async def distribute_power(self, request: Any) -> None:
             g = tuple(sorted(request.component_ids))
-            rid = request.power.as_watts()
+            rid = ident.get(id(request))
+            if rid is None:  # a copy of the request object: the most recent sent request equal to it
+                rid = next((r for r, o in reversed(list(objs.items())) if o == request), -1.0)
             log.append(("enter", g, rid, loop.time()))
             d, fail = script[rid]
             try:
@@ -103,13 +113,16 @@ async def _drive(case: dict[str, Any], log: list[Any]) -> None:
         tx = reqc.new_sender()
         await asyncio.sleep(0)
         t0 = loop.time()
-        for i, (at, g, _d, _f) in enumerate(case["requests"]):
+        for i, (at, g, _d, _f, *shared) in enumerate(case["requests"]):
             dt = t0 + at - loop.time()
             if dt > 0:
                 await asyncio.sleep(dt)
             grp = tuple(GROUPS[g])
             log.append(("sent", grp, float(i + 1), loop.time()))
-            await tx.send(Request(power=Power.from_watts(float(i + 1)), component_ids=set(grp)))
+            req = Request(power=Power.from_watts(1000.0 + shared[0] if shared else float(i + 1)), component_ids=set(grp))
+            ident[id(req)] = float(i + 1)
+            objs[float(i + 1)] = req  # (kept alive: object identity is the request id)
+            await tx.send(req)
             for _ in range(6):
                 await asyncio.sleep(0)
         await asyncio.sleep(300)
@@ -130,6 +143,8 @@ def check(case: dict[str, Any], rec: Any) -> None:
         rec.bucket("multi-group")
     if any(r[2] == 0 for r in case["requests"]):
         rec.bucket("duration-0")
+    if any(len(r) > 4 for r in case["requests"]):
+        rec.bucket("equal-requests-repeated")
     script = {float(i + 1): (r[2], r[3]) for i, r in enumerate(case["requests"])}
     nontrivial = False
     groups = sorted({e[1] for e in log if e[0] != "quiescent"})
